@@ -251,6 +251,15 @@ class Twin:
                     time.sleep(0.05)
                     p.stdin.write(b"HEAD^{tree}\n"); p.stdin.flush()
                     out += p.stdout.readline()
+                else:
+                    # the session is kept open until the signal has done its work: closing stdin right away would let the proxied
+                    # git finish on EOF before the (not yet scheduled) proxy has been handed the signal - a race every forwarding
+                    # parent has and the property does not exclude. A proxy that does not forward at all runs into the timeout
+                    # and ends 0 once stdin is closed.
+                    try:
+                        p.wait(timeout=20)
+                    except subprocess.TimeoutExpired:
+                        pass
                 p.stdin.close()
             except (BrokenPipeError, OSError):
                 pass
